@@ -146,9 +146,9 @@ def wire_closure(world, roots, rep):
 
 
 def check(ctx, rep):
-    rep.rule('R10.a', 'wire types are enumerated from the Operation impls and resolve to analysed ADTs', floor=20)
-    rep.rule('R10.b', 'every serde attribute on a wire type is in the neutrality table; Serialize/Deserialize are derived', floor=20)
-    rep.rule('R10.c', 'in an enum that derives Serialize and Deserialize no serde-skipped variant precedes a non-skipped one', floor=12)
+    rep.rule('R10.a', 'wire types are enumerated from the Operation impls and resolve to analysed ADTs', floor=15)
+    rep.rule('R10.b', 'every serde attribute on a wire type is in the neutrality table; Serialize/Deserialize are derived', floor=15)
+    rep.rule('R10.c', 'in an enum that derives Serialize and Deserialize no serde-skipped variant precedes a non-skipped one', floor=8)
     rep.rule('R10.d', 'the bincode bridge uses one options value, with fixint encoding, for the deserializer and the serializer', floor=5)
     rep.rule('R10.e', 'register_types registers Self, Self::Output and the hand-listed types; generated Export impls register every operation', floor=6)
 
